@@ -584,3 +584,129 @@ func ruleStatusReportsLiveBit(c *Ctx) {
 		c.und("server-reply", 0, "no store of the \"caught_up\" member found")
 	}
 }
+
+// R6.hook-owns-its-arguments
+func init() {
+	register(&Rule{ID: "R6.hook-owns-its-arguments", Props: []string{"C06", "C05", "C03"}, Floor: 1,
+		Text: "a registered hook keeps the command that defined it (Hook.Message.Args: what HOOKS/CHANS print, what the rewrite of the log emits and what Hook.Equals compares), and it keeps it longer than the request lives: in the handler that builds a Hook, the Args of the Message stored in it are a slice created in that function (make and copy, an append to nil, a literal) — never the handler's own argument vector or a part of it. A caller may reuse its argument buffer for the next command (a follower reading the replication stream does, to save an allocation per command) and the stored definition would change behind the hook's back, on the follower only",
+		Run:  ruleHookOwnsArguments})
+}
+
+func ruleHookOwnsArguments(c *Ctx) {
+	msgField := c.Field("internal/server", "Hook", "Message")
+	argsField := c.Field("internal/server", "Message", "Args")
+	if msgField == nil || argsField == nil {
+		c.und("anchors", 0, "Hook.Message or Message.Args not found")
+		return
+	}
+	n := 0
+	for _, fn := range c.AllFuncs("internal/server") {
+		if fn.Decl.Body == nil {
+			continue
+		}
+		info := fn.Info()
+		ast.Inspect(fn.Decl.Body, func(x ast.Node) bool {
+			cl, ok := x.(*ast.CompositeLit)
+			if !ok {
+				return true
+			}
+			tv, ok := info.Types[cl]
+			if !ok || !isNamedType(tv.Type, modPath+"/internal/server", "Hook") {
+				return true
+			}
+			var mv ast.Expr
+			for _, el := range cl.Elts {
+				if kv, ok := el.(*ast.KeyValueExpr); ok {
+					if id, ok := kv.Key.(*ast.Ident); ok && id.Name == "Message" {
+						mv = kv.Value
+					}
+				}
+			}
+			if mv == nil {
+				return true
+			}
+			n++
+			key := funcName(fn.Obj) + "→Hook.Message"
+			mid, ok := ast.Unparen(mv).(*ast.Ident)
+			if !ok {
+				c.und(key, cl.Pos(), "the message stored in the hook is not a local variable")
+				return true
+			}
+			mobj := info.ObjectOf(mid)
+			fg := newFlowGraph(info, fn.Decl.Body)
+			hl := fg.LocOfOuter(cl)
+			// stores to <m>.Args that dominate the literal; the last kind decides
+			owned, why := false, "the message is a copy of the request (its Args are the request's) and no fresh slice is stored into its Args before the hook is built"
+			var at token.Pos = cl.Pos()
+			for _, st := range fg.Find(func(y ast.Node) bool {
+				as, ok := y.(*ast.AssignStmt)
+				if !ok {
+					return false
+				}
+				for _, l := range as.Lhs {
+					if se, ok := ast.Unparen(l).(*ast.SelectorExpr); ok && selField(info, se) == argsField {
+						if id, ok := ast.Unparen(se.X).(*ast.Ident); ok && info.ObjectOf(id) == mobj {
+							return true
+						}
+					}
+				}
+				return false
+			}) {
+				if !hl.Valid() || !fg.Dominates(st, hl) {
+					continue
+				}
+				as := st.Node.(*ast.AssignStmt)
+				for i, l := range as.Lhs {
+					se, ok := ast.Unparen(l).(*ast.SelectorExpr)
+					if !ok || selField(info, se) != argsField || i >= len(as.Rhs) {
+						continue
+					}
+					r := ast.Unparen(as.Rhs[i])
+					fresh := false
+					switch y := r.(type) {
+					case *ast.CompositeLit:
+						fresh = true
+					case *ast.CallExpr:
+						if id, ok := ast.Unparen(y.Fun).(*ast.Ident); ok {
+							if _, isB := info.Uses[id].(*types.Builtin); isB {
+								switch id.Name {
+								case "make":
+									fresh = true
+								case "append":
+									// append([]string(nil), …) / append([]string{}, …)
+									if len(y.Args) > 0 {
+										a0 := ast.Unparen(y.Args[0])
+										if tv, ok := info.Types[a0]; ok && tv.IsNil() {
+											fresh = true
+										}
+										if conv, ok := a0.(*ast.CallExpr); ok && len(conv.Args) == 1 {
+											if tv, ok := info.Types[conv.Args[0]]; ok && tv.IsNil() {
+												fresh = true
+											}
+										}
+										if _, ok := a0.(*ast.CompositeLit); ok {
+											fresh = true
+										}
+									}
+								}
+							}
+						}
+						if f := callee(info, y); f != nil && f.Pkg() != nil && f.Pkg().Path() == "slices" && f.Name() == "Clone" {
+							fresh = true
+						}
+					}
+					owned = fresh
+					if !fresh {
+						why = "its Args are set to " + exprStr(r) + ", which is not a slice created here"
+						at = as.Pos()
+					}
+				}
+			}
+			c.check(owned, key, at, "the Args of the stored message are a slice created in the handler", "the hook keeps a message whose argument vector is not its own ("+why+"): a caller that reuses its argument buffer — the follower's replication loop — overwrites the stored definition with later commands; HOOKS/CHANS, Hook.Equals and a rewrite of the log on that server then see a command that was never issued")
+			return true
+		})
+	}
+	if n == 0 {
+		c.und("sites", 0, "no Hook literal with a Message found")
+	}
+}
